@@ -1181,6 +1181,9 @@ def run(ctx):
         ctx.findings += [f for f in json.loads(fd.read_text()) if f.get('property') == 'C08' and f.get('id') not in have]
     ctx.regen(only=['batchorder'])       # tie T: raise / mutation / commit order of every handler, from engine.py
     ctx.prove('props/C08.v', extra_targets=['theories/Batch/Cases.v', 'theories/Batch/SessionCases.v'])
+    ctx.cov['source_order_residual'] = ctx.model_output(
+        'From Coq Require Import String List.\nFrom PK Require Import Batch.Order.\nFrom PKGen Require Import BatchOrder.\n',
+        'late_raises engine_methods operation_handlers')
     runner = Runner(ctx)
     gen_all(runner, ctx)
     gen_sweep(runner, ctx)
